@@ -147,9 +147,9 @@ def r121_r122(repo, ctx):
         vm = [x for x in sides if U.chain(x) == ('self', 'precipitateParameters', '[]', 'volume', 'Vm')]
         ok_dg = len(df) == 1 and len(vm) == 1
     ctx.check(ok_dg, 'R12.2', EULER, q, c, 'the growth law receives dG = (recorded volumetric driving force of the phase) * Vm of the same phase', f'the driving force passed to the growth law is not volumetric driving force * Vm: {U.src(dg_arg)}', construct=U.src(c.args[2]))
-    gx_arg = c.args[4]
-    ok_gx = isinstance(gx_arg, ast.Call) and U.call_name(gx_arg) == 'self.particleGibbs' and 'precipitateParameters[p].phase' in U.src(gx_arg)
-    r_arg = c.args[3]
+    gx_arg = inline(c.args[4], defs)
+    ok_gx = isinstance(gx_arg, ast.Call) and U.call_name(gx_arg) == 'self.particleGibbs' and 'precipitateParameters[p].phase' in U.src(inline(gx_arg, defs))
+    r_arg = inline(c.args[3], defs)
     ctx.check(ok_gx and U.chain(r_arg) == ('self', 'PBM', '[]', 'PSDbounds'), 'R12.2', EULER, q, c, 'the Gibbs-Thomson term is particleGibbs of the same phase on the size-class boundaries that are passed as radii',
               'the Gibbs-Thomson term passed to the growth law is not particleGibbs of the same phase on the radii passed', construct=U.src(gx_arg))
     pg = repo.func(BASE, 'PrecipitateBase.particleGibbs')
